@@ -3,6 +3,10 @@ import DK.Driver.Tree
 import DK.Driver.Loader
 import DK.Driver.Serial
 import DK.Driver.TreeX
+import DK.Driver.Sets
+import DK.Driver.Usable
+import DK.Driver.State
+import DK.Driver.Solve
 /-! Line driver: one JSON operation per input line, one JSON answer per output line. -/
 namespace DK.Driver
 open Lean
@@ -21,6 +25,10 @@ def handle (line : String) : String :=
       else if op.startsWith "loader." then loaderOp op j
       else if op.startsWith "serial." then serialOp op j
       else if op.startsWith "treex." then treexOp op j
+      else if op.startsWith "sets." then setsOp op j
+      else if op.startsWith "usable." then usableOp op j
+      else if op.startsWith "state." then stateOp op j
+      else if op.startsWith "solve." then solveOp op j
       else throw s!"unknown op {op}" : Except String Json) with
     | .ok v => ok v
     | .error e => err e
